@@ -38,6 +38,9 @@ import (
 	"gonum.org/v1/gonum/mat"
 )
 
+// the environment at start-up: c17Setup re-points HOME (config files of the run), the go tool needs the original one
+var c17OrigEnv = os.Environ()
+
 func init() {
 	caseGens["C17"] = caseGen{count: c17Count, gen: c17Gen}
 }
@@ -416,7 +419,7 @@ func c17RaceBinary() (string, error) {
 	args = append(args, "-o", bin, ".")
 	cmd := exec.Command("go", args...)
 	cmd.Dir = tmp
-	cmd.Env = append(os.Environ(), "GOFLAGS=-mod=mod", "GOPROXY=off", "GOSUMDB=off", "GOTOOLCHAIN=local", "CGO_ENABLED=1")
+	cmd.Env = append(append([]string{}, c17OrigEnv...), "GOFLAGS=-mod=mod", "GOPROXY=off", "GOSUMDB=off", "GOTOOLCHAIN=local", "CGO_ENABLED=1")
 	if out, err := cmd.CombinedOutput(); err != nil {
 		return "", fmt.Errorf("go build -race failed: %v: %s", err, strings.ReplaceAll(string(out), "\n", " | "))
 	}
